@@ -35,6 +35,18 @@ CLAIMS.update({
         "Outside: format 2 (beyond the panic-freedom in C01), more segments/groups than stated, Big5 (encoding_rs), the Symbol/Big5/AppleRoman "
         "dispatch inside Font::lookup_glyph_index, the 0xFFFF idRangeOffset work-around. Oracles are my restatement of the OpenType cmap chapter.",
         "DESIGN.md section 6, C06", TECH_KANI + "; " + TECH_SMT),
+    "C13": (
+        "Bounded solver verdict. Engine B (MIR->SMT of fvar::default_normalize + Fixed ops + F2Dot14::from(Fixed), regenerated from /repo's MIR "
+        "on every run, decided by cvc5/z3): for ALL 32-bit min <= default <= max with span < 32768.0 and ALL 32-bit user values: no panic, "
+        "min/default/max map to exactly -1/0/+1, clamping outside the range, degenerate axes map to 0, result within one 2.14 unit of the "
+        "exact quotient, monotone non-decreasing (two symbolic runs), sign follows the side of the default; no panic for malformed axis "
+        "orders; F2Dot14->Fixed->F2Dot14 identity for all 65536 values. Kani: tuple-length check, a concrete axis over every 32-bit user "
+        "value through FvarTable::normalize, avar identity map, knot exactness and segment containment for a symbolic knot, axis/segment-map "
+        "pairing through FvarTable::normalize with an avar table.",
+        "Outside: spans >= 32768.0 (open known finding C13-wide-span), monotonicity and the slope-scaled accuracy bound of the avar step, avar maps "
+        "with > 4 records, > 2 axes. The MIR translator's std whitelist (Ord::max/min/clamp, PartialOrd on derived newtypes, wrapping ops, i64::from) "
+        "is hand-written and validated per run against native execution on ~180 inputs.",
+        "DESIGN.md section 6, C13", TECH_SMT + "; " + TECH_KANI),
     "C10": (
         "Bounded solver verdict: for an sfnt with 2 table records (3 thorough), a TTC with 2 members at symbolic offsets, and a WOFF file "
         "with 2 uncompressed directory entries (3 thorough), with every byte other than the record counts symbolic, table_data(tag) for "
